@@ -200,12 +200,12 @@ PROPS["C13"] = Prop(
     "(or at least n-1 with a final ..rest), pattern i bound to element i left to right, rest = a fresh list of exactly xs[n-1..] "
     "(so prefix + rest == xs, lemma), spread item rejected, no index underflow/OOB; bind_next external (any behaviour). "
     "Unit V-name contributes the once-per-pattern name set clause.",
-    vunits=[V_LIST, V_NAME, V_CALL, VUnit('items', 'items', ['eval::eval_list_items'])],
+    vunits=[V_LIST, V_NAME, V_CALL, VUnit('items', 'items', ['eval::eval_list_items']), VUnit('object_bind', 'object_bind', ['bind::bind_object', 'bind::bind_object_prop'])],
     assumptions=[
         "grammar invariant: `..` (collect) is only produced together with a pattern/parameter (ParamList, ReverseExprList in parser.lalrpop, by inspection)",
         "A-lock: list cell modelled as exclusively owned",
-        "object destructuring (bind_object, bind_object_prop) and validate_args are not under contract",
+        "validate_args is not under contract; std BTreeMap / HashSet replaced by assumed finite-map / set contracts",
     ],
     trusted_base=VERUS_TRUST,
-    not_covered=["object patterns / object spread", "validate_args", "nested patterns beyond the recursive binder's contract"],
+    not_covered=["object spread in literals (eval_expr Object arm)", "validate_args", "that bind_next dispatches patterns to these functions (bind_next itself)"],
 )
